@@ -339,13 +339,27 @@ def explore(system: System, cfg, props, max_violations=20, state_cap=None):
         res.violations.append((v, []))
     ntrans = 0
     closure = True
-    longest = []
+    budget = cfg.get("budget")
+    cur_level, level_t0, level_n = 0, 0, 1
+    depth_completed = None
     while frontier:
         sid, st = frontier.popleft()
         d = depths[sid]
         if maxd is not None and d >= maxd:
             closure = False
+            depth_completed = maxd
             continue
+        if d > cur_level:
+            # a new BFS level starts: every sequence of <= d events has been executed
+            ratio = (ntrans - level_t0) / max(1, level_n)
+            level_n = 1 + len(frontier)
+            if budget and ntrans + ratio * level_n > budget:
+                closure = False
+                depth_completed = d
+                res.extra["budget_stop"] = {"budget": budget, "depth_completed": d, "unexpanded_frontier": level_n}
+                frontier.clear()
+                break
+            cur_level, level_t0 = d, ntrans
         for ev in system.events(cfg, st):
             for choices, obs, post in system.steps(cfg, st, ev):
                 if isinstance(obs, (list, tuple)) and obs and obs[0] == "timeout":
@@ -409,6 +423,7 @@ def explore(system: System, cfg, props, max_violations=20, state_cap=None):
     res.states = len(parents)
     res.transitions = ntrans
     res.closure = closure and not res.caps
+    res.extra["depth_completed"] = "closure" if res.closure else depth_completed
     res.nontrivial_states = sum(1 for x in nontriv if x)
     # samples: 2 shortest non-empty + 2 longest histories
     n = len(parents)
